@@ -1,12 +1,86 @@
-(* C11 -- source map and listings are exact. *)
-From Coq Require Import List NArith ZArith Bool.
+(* C11 -- source map and listings are exact.
+   Model: model/SourceMap.v (source_map.rs + the used part of code_map.rs), model/Listing.v (listing.rs to_listing),
+   model/Emit.v (Segment::emit + CodegenContext::emit + macro re-attribution).  Spec: spec/ListingSpec.v. *)
+From Coq Require Import List NArith ZArith Bool Permutation.
 Import ListNotations.
 From Mos Require Import model.SourceMap model.Listing spec.ListingSpec proofs.ListingProofs.
 Open Scope Z_scope.
 
+(* For ALL code maps, segment tables and source maps that are well formed emissions (every entry records the target
+   address range of exactly the bytes its statement emitted, and the segment it names holds them at the corresponding
+   emit addresses -- relocated and overlapping segments included), for every bytes-per-line n > 0 and every file:
+   the model of to_listing does not panic and produces exactly the rows of the spec: per source line in order, the bytes
+   emitted for the statements beginning on that line, in emission order, in maximal rows of at most n bytes at
+   consecutive addresses, the first row of a line carrying the source text. *)
+Theorem C11_listing_rows : forall cm segs es n f,
+  wf_emission segs es -> spans_ok cm es -> (0 < n)%nat ->
+  to_listing_file cm (map fst es) segs n f = Ok (spec_rows n (num_lines f) (f_name f) (emissions cm es)).
+Proof. exact listing_rows. Qed.
+Print Assumptions C11_listing_rows.
+
+(* Every byte emitted by a statement of the file appears in the file's listing exactly once (as an (address, byte) pair;
+   multiset equality), and nothing else appears. *)
+Theorem C11_every_byte_once : forall cm segs es n f rows,
+  wf_emission segs es -> spans_ok cm es -> (0 < n)%nat -> find_file cm (f_name f) = Ok f ->
+  to_listing_file cm (map fst es) segs n f = Ok rows ->
+  Permutation (flat_map row_cells rows)
+              (flat_map em_cells (filter (fun e => N.eqb (em_file e) (f_name f)) (emissions cm es))).
+Proof. exact every_byte_once. Qed.
+Print Assumptions C11_every_byte_once.
+
+(* Whatever the source map and the segments are: if to_listing does not panic, its rows are, for every source line of
+   the file in order, a non-empty group of rows of that line, exactly the first of which carries the source text. *)
+Theorem C11_lines_once_in_order : forall cm sm segs n f rows,
+  to_listing_file cm sm segs n f = Ok rows ->
+  exists groups, rows = concat groups /\ Forall2 line_group_ok (seq 0 (num_lines f)) groups.
+Proof. exact lines_once_in_order. Qed.
+Print Assumptions C11_lines_once_in_order.
+
 (* Macro re-attribution (listing mode) touches exactly the entries emitted since the invocation began -- whatever scope
-   they were emitted in -- and changes only their scope and span: addresses and segment stay. *)
+   they were emitted in (nested blocks, loops, labelled blocks of the macro body included) -- and changes only their
+   scope and span: addresses and segment stay. *)
 Theorem C11_move_offsets : forall sm appended scope sp,
   move_offsets (sm ++ appended) (length sm) scope sp = sm ++ map (retarget scope sp) appended.
 Proof. exact move_offsets_exact. Qed.
 Print Assumptions C11_move_offsets.
+
+(* The line the code map reports for the beginning of a span (binary search in the table of line starts) is the number
+   of line feeds before it; the reported file is the span's file. *)
+Theorem C11_begin_line : forall cm s, span_ok cm s ->
+  exists sl, look_up_span cm s = Ok sl /\ sl_file sl = sp_file s /\
+             lc_line (sl_begin sl) = spec_line (src_of cm (sp_file s)) (sp_lo s).
+Proof. exact look_up_span_ok. Qed.
+Print Assumptions C11_begin_line.
+
+(* address_to_offset returns the first entry (in emission order) whose target range contains the address, and None
+   exactly when no entry does. *)
+Theorem C11_address_to_offset : forall sm pc,
+  match address_to_offset sm pc with
+  | Some o => exists before after, sm = before ++ o :: after /\ covers pc o /\ Forall (fun o' => ~ covers pc o') before
+  | None => Forall (fun o' => ~ covers pc o') sm
+  end.
+Proof. exact address_to_offset_spec. Qed.
+Print Assumptions C11_address_to_offset.
+
+(* ---- non-vacuity and the former defects (F-C11a, F-C11b), now positive on the repaired code ------------------- *)
+Definition ex_file : file := mkFile 0 [110;111;112;10;46;98;10]%N.          (* "nop\n.b\n": 3 lines *)
+(* relocated segment 7: emitted at $1000.., target $8000..; a second segment 8 whose emit range overlaps it *)
+Definition ex_segs : segments := [(7%N, mkLseg 4096 4098 [234;96]%N 28672); (8%N, mkLseg 4097 4098 [238]%N 0)].
+Definition ex_es : list (offset * list N) :=
+  [(mkOffset 0 (mkSpan 0 0 3) 32768 32769 7, [234]%N);
+   (mkOffset 0 (mkSpan 0 4 6) 32769 32770 7, [96]%N);
+   (mkOffset 0 (mkSpan 0 4 6) 4097 4098 8, [238]%N)].
+
+Example C11_example_wf : wf_emission ex_segs ex_es /\ spans_ok [ex_file] ex_es.
+Proof.
+  split.
+  - repeat constructor; cbn; intros _; eexists; (split; [reflexivity|]); cbn; repeat split; try discriminate; reflexivity.
+  - repeat constructor; exists ex_file; cbn; repeat split; discriminate.
+Qed.
+
+(* F-C11a: the relocated segment's bytes are listed at their target addresses; F-C11b: the overlapping segment lists its
+   own byte $EE, not $60 of the other segment *)
+Example C11_example_relocated_overlap :
+  to_listing_file [ex_file] (map fst ex_es) ex_segs 8 ex_file =
+  Ok [mkRow 0 (Some 32768) [234]%N true; mkRow 1 (Some 32769) [96]%N true; mkRow 1 (Some 4097) [238]%N false; mkRow 2 None [] true].
+Proof. vm_compute. reflexivity. Qed.
